@@ -20,7 +20,7 @@ func init() {
 // unchanged tree with margin; not tuned per run).
 // Measured on the repaired tree over 5 seeds x 993 executions: at most 4 views and 14 rounds (chained, simple).
 func progressViewBound(chainLen, spread int) int { return 4*chainLen + 2 }
-func progressRoundBound(spread int) int  { return 60 }
+func progressRoundBound(spread int) int          { return 60 }
 
 // genProgressConfig: the faulty set is fixed up front (crash / silent twins / silent scripted) so
 // that the leader schedule of the suffix can be restricted to the live honest quorum.
@@ -79,12 +79,13 @@ func genProgressConfig(rng *vbase.Rng) (Config, map[hotstuff.ID]bool) {
 
 func c05Progress(p vbase.Params, r *vbase.Result) {
 	r.Rule = "bounded-progress restatement: a hostile prefix (async-chaos / partition-heal / twins-lockstep, <= f crashed, silent-twin or silent-scripted replicas fixed up front) followed by a SYNCHRONOUS suffix among the " +
-		"live honest quorum Q (per round: deliver every pending message between members of Q in FIFO order; if nothing was delivered every member's timer fires; in every second suffix delays are unequal: each message takes one or two rounds, links are FIFO and interleaved in PRNG order, so votes may overtake the proposal they answer - in half of those the slow message is always the proposal's copy to the next leader; timers fire only when nothing is in flight), following views led by members of Q " +
+		"live honest quorum Q (per round: deliver every pending message between members of Q in FIFO order; if nothing was delivered every member's timer fires; in every second suffix delays are unequal: each message takes one or two rounds, links are FIFO and interleaved in PRNG order, so votes may overtake the proposal they answer - in half of those the slow message is always the proposal's copy to the next leader; timers fire only when nothing is in flight, a PRNG-chosen subset first and the rest one round later unless restarted), following views led by members of Q " +
 		"(scripted and fixed schedules for any faulty set, round-robin only with an empty one), commands always available; claim: every member of Q commits a new block before max-view(Q) grew by 4*ChainLength+2 views " +
 		"and within 60 rounds; non-trivial: members of Q were >= 2 views apart or a timeout certificate was needed at healing time; distinct: prefix trace"
 	r.Assume("liveness is decided only as bounded progress in logical rounds of the simulator; unbounded 'eventually', real-time timers and dynamic view-duration adaptation are out of reach of this technique")
 	n := p.N(900, 90000)
-	dbg := -1
+	const noDbg = -1 << 30
+	dbg := noDbg
 	if v := os.Getenv("VERIF_DEBUG_CASE"); v != "" {
 		fmt.Sscan(v, &dbg)
 	}
@@ -105,13 +106,17 @@ func c05Progress(p vbase.Params, r *vbase.Result) {
 			for _, k := range []int{2, 3, 5, 9, 12} {
 				lags = append(lags, lagCase{rs, "lag-leads", nn, k})
 			}
+			// an exact live quorum split over two views by asymmetric loss of timeout messages (see prefixSplitViews)
+			for k := 0; k < 6; k++ {
+				lags = append(lags, lagCase{rs, "split-views", nn, k})
+			}
 		}
 	}
 	for i := -len(lags); i < n; i++ {
-		if dbg >= 0 && i != dbg {
+		if dbg != noDbg && i != dbg {
 			continue
 		}
-		if i < 0 && !p.Mine(-i) {
+		if i < 0 && !p.Mine(-i) && dbg == noDbg {
 			continue
 		}
 		rng := vbase.NewRng(p.Seed, "C05.progress", p.Shard, p.NShards, i)
@@ -133,6 +138,15 @@ func c05Progress(p vbase.Params, r *vbase.Result) {
 					cfg.Sched = append(cfg.Sched, hotstuff.ID(lc.n))
 				}
 				cfg.Label = fmt.Sprintf("deep-lag-leads/%d", lc.k)
+			}
+			if lc.leader == "split-views" {
+				lagK = 0
+				cfg.Leader = "fixed"
+				cfg.Profile = "directed:split-views"
+				cfg.Label = fmt.Sprintf("split-views/%d", lc.k)
+				for id := lc.n - hotstuff.NumFaulty(lc.n) + 1; id <= lc.n; id++ {
+					faulty[hotstuff.ID(id)] = true
+				}
 			}
 			if lc.leader == "script" {
 				// the lagging replica (the last one) never leads
@@ -159,7 +173,16 @@ func c05Progress(p vbase.Params, r *vbase.Result) {
 		savedScripted := cfg.Scripted
 		_ = savedScripted
 		c.Cfg.Profile = cfg.Profile
-		if lagK > 0 {
+		var splitLag *Actor
+		if cfg.Profile == "directed:split-views" {
+			splitLag = c.prefixSplitViews(lags[-i-1].k, faulty)
+			if splitLag == nil && c.Panic == nil {
+				c.Close()
+				r.Obs("split_views_setup_not_reached", 1)
+				continue
+			}
+			r.Obs("split_views_setups_reached", 1)
+		} else if lagK > 0 {
 			c.prefixIsolateLast(lagK)
 		} else {
 			c.runPrefixNoByz()
@@ -208,7 +231,7 @@ func c05Progress(p vbase.Params, r *vbase.Result) {
 		chainLen := Q[0].Node.Rules.ChainLength()
 		B, R := progressViewBound(chainLen, spread), progressRoundBound(spread)
 		timeoutsBefore := c.Timeouts
-		if dbg >= 0 {
+		if dbg != noDbg {
 			for _, a := range Q {
 				a.M.Logger.Keep = 400
 			}
@@ -219,6 +242,13 @@ func c05Progress(p vbase.Params, r *vbase.Result) {
 		jr := vbase.NewRng(p.Seed, "C05.delays", p.Shard, p.NShards, i)
 		unequal := jr.Chance(1, 2)
 		slowProposals := unequal && jr.Chance(1, 2)
+		if splitLag != nil {
+			// the split is only interesting when the replicas' timers do not all fire in the same instant
+			unequal, slowProposals = true, false
+			if lags[-i-1].k%2 == 0 {
+				c.staggerFirst = splitLag // the lagging replica's timer is the first to fire
+			}
+		}
 		if unequal {
 			c.Cfg.Label += " unequal-delays"
 			r.Obs("suffixes_with_unequal_delays", 1)
@@ -248,13 +278,13 @@ func c05Progress(p vbase.Params, r *vbase.Result) {
 				}
 			}
 			usedViews = int(cur - maxV)
-			if dbg >= 0 {
+			if dbg != noDbg {
 				fmt.Fprintf(os.Stderr, "round %d pool=%d timeouts=%d:", rounds, len(c.Pool), c.Timeouts)
 				for _, a := range Q {
 					fmt.Fprintf(os.Stderr, " %s[v=%d hqc=%d c=%d]", a.Name(), a.Node.VS.View(), a.Node.VS.HighQC().View(), len(c.Mon.commits[a.Idx]))
 				}
 				fmt.Fprintln(os.Stderr)
-				if rounds == -1 {
+				if os.Getenv("VERIF_DEBUG_ROUND") == fmt.Sprint(rounds) {
 					for _, a := range Q {
 						for _, l := range a.M.Logger.Tail() {
 							fmt.Fprintln(os.Stderr, "   ", l)
@@ -322,6 +352,110 @@ func (c *Cluster) prefixIsolateLast(k int) {
 		}
 	}
 	c.FaultSteps++
+}
+
+// prefixSplitViews builds the state "an exact live quorum split over two views": the last f replicas are silent from the
+// start, replica 1 leads every view; after a few fault-free views every proposal is lost: the replicas leave two views by
+// timeout certificates; in the third, the timeout messages addressed to one replica L are lost as well (its own reach the
+// others). The others assemble the certificate and move on, L stays one view behind holding the previous TC, which is
+// newer than its high QC. Returns L, or nil when the state was not reached.
+func (c *Cluster) prefixSplitViews(variant int, faulty map[hotstuff.ID]bool) *Actor {
+	c.Start()
+	c.NoFaults = true
+	var Q []*Actor
+	for _, a := range c.Actors {
+		if faulty[a.ID] {
+			a.Crashed = true
+		} else if a.Node != nil {
+			Q = append(Q, a)
+		}
+	}
+	c.purge()
+	if len(Q) < 3 {
+		return nil
+	}
+	L := Q[1+(variant/2)%(len(Q)-1)]
+	minView := func(as []*Actor) hotstuff.View {
+		m := hotstuff.View(1 << 62)
+		for _, a := range as {
+			if v := a.Node.VS.View(); v < m {
+				m = v
+			}
+		}
+		return m
+	}
+	round := func(drop func(p Pending) bool) {
+		c.cmd.topUp()
+		c.Step++
+		if drop != nil {
+			kept := c.Pool[:0]
+			for _, p := range c.Pool {
+				if !drop(p) {
+					kept = append(kept, p)
+				}
+			}
+			c.Pool = kept
+		}
+		c.lockstepRound(nil)
+	}
+	for k := 0; k < 40 && c.Panic == nil && minView(Q) < hotstuff.View(4+variant%3); k++ {
+		round(nil)
+	}
+	w := hotstuff.View(0)
+	for _, a := range Q {
+		if v := a.Node.VS.View(); v > w {
+			w = v
+		}
+	}
+	// from now on every proposal of a view above w is lost: the replicas leave view w and view w+1 by timeout certificates
+	F := w + 1
+	isProposal := func(p Pending) bool {
+		pm, ok := p.Msg.(hotstuff.ProposeMsg)
+		return ok && pm.Block != nil && pm.Block.View() >= F
+	}
+	for k := 0; k < 24 && c.Panic == nil && minView(Q) < F+1; k++ {
+		round(isProposal)
+	}
+	if minView(Q) != F+1 {
+		return nil
+	}
+	// view F+1 fails too; the others' timeouts for it never reach L
+	var others []*Actor
+	for _, a := range Q {
+		if a != L {
+			others = append(others, a)
+		}
+	}
+	for k := 0; k < 12 && c.Panic == nil && minView(others) < F+2; k++ {
+		round(func(p Pending) bool {
+			if isProposal(p) {
+				return true
+			}
+			if c.Actors[p.To] == L {
+				if tm, ok := p.Msg.(hotstuff.TimeoutMsg); ok && tm.View >= F+1 {
+					return true
+				}
+				if _, ok := p.Msg.(hotstuff.NewViewMsg); ok {
+					return true
+				}
+			}
+			return false
+		})
+	}
+	c.FaultSteps++
+	if c.Panic != nil || minView(others) != F+2 || L.Node.VS.View() != F+1 {
+		return nil
+	}
+	// whatever of the lost kind is still in flight to L is lost too; the rest stays pending for the suffix
+	kept := c.Pool[:0]
+	for _, p := range c.Pool {
+		if tm, ok := p.Msg.(hotstuff.TimeoutMsg); ok && c.Actors[p.To] == L && tm.View == F+1 {
+			continue
+		}
+		kept = append(kept, p)
+	}
+	c.Pool = kept
+	return L
 }
 
 // runPrefixNoByz runs the scheduler with scripted actors silent (they model crash/silent faults in C05).
